@@ -1,0 +1,14 @@
+//go:build verif
+
+package node
+
+import "github.com/siyul-park/uniflow/pkg/packet"
+
+// VerifTracer exposes the node's tracer read-only to the verification harness.
+func (n *OneToOneNode) VerifTracer() *packet.Tracer { return n.tracer }
+
+// VerifTracer exposes the node's tracer read-only to the verification harness.
+func (n *OneToManyNode) VerifTracer() *packet.Tracer { return n.tracer }
+
+// VerifTracer exposes the node's tracer read-only to the verification harness.
+func (n *ManyToOneNode) VerifTracer() *packet.Tracer { return n.tracer }
